@@ -97,3 +97,42 @@ contract("nucs/solvers/bound_consistency_algorithm.py::bound_consistency_algorit
     # everything the acceptance interface (ConsistencyAlgAcc, engine_search.py) promises, literally, plus BC's stronger frame
     ensures=CA_FRAME + CA_FRAME_IFACE + [CA_SHRINK, CA_STATUS, CA_BOUND, CA_UNBOUND, ("C17.others", OTHER_STATS), ("C17.solver_stats", SOLVER_STATS_SAME_BC)] + ACC_ENS,
     tags={"C01": ["C01"]}, arities=[], timeout_ms=200000)
+
+
+# ------------------------------------------------------------------ fixpoint variant (C08): the pass ends at a common fixpoint of the enabled constraints
+# Fix(p, l, S) is uninterpreted; what the engine is checked for is its queue discipline, under two trusted axiom schemas (00_spec.py):
+# A-FIX-ADEQ (an unwatched change of one domain keeps a fixpoint) and A-FIX-RAN (a constraint that ran and sees its own output is at a fixpoint
+# if nothing changed or it is idempotent). Hypotheses: no constraint has one shared domain at two positions; the linear equality watches MIN|MAX.
+NPOS = "(prop_var_end - prop_var_start)"
+EQ_ALL = lambda n: f"forall(k, 0, {n}, {SS}[top, prop_indices[k], MIN] == {OUTN('k', 'MIN')} and {SS}[top, prop_indices[k], MAX] == {OUTN('k', 'MAX')})"
+FIX_OUTER = [("C08.K", FIX_K(SS, "triggered_propagators", "prop_idx"))]
+FIX_OTHERS = ("C08.K_others", f"forall(p, 0, P, implies(p != q0 and {NEs}[top, p] and not triggered_propagators[p], fixp({SS}, top, p)))")
+FIX_INNER = [
+    FIX_OTHERS,
+    ("C08.eq_done", EQ_ALL("v")),
+    ("C08.untouched", f"forall(k, v, {NPOS}, {SS}[top, prop_indices[k], MIN] == pre({SS})[top, prop_indices[k], MIN] and {SS}[top, prop_indices[k], MAX] == pre({SS})[top, prop_indices[k], MAX])"),
+    ("C08.queued_if_changed", f"implies(shr_domains_changes and {NEs}[top, q0] and fullmask(q0), triggered_propagators[q0])"),
+    ("C08.q0", "prop_idx == q0 and 0 <= q0 and q0 < P"),
+]
+FIX_THIRD = [
+    FIX_OTHERS,
+    ("C08.same", f"same_pre({SS}) and same_pre(triggered_propagators) and same_pre({NEs})"),
+    ("C08.last", "((prop_idx == q0 and algorithms[q0] != ALG_AFFINE_EQ) or (prop_idx == -1 and algorithms[q0] == ALG_AFFINE_EQ)) and 0 <= q0 and q0 < P"),
+    ("C08.eq_all", EQ_ALL(NPOS)),
+]
+RAN_OK = (f"status != PROP_INCONSISTENCY and prop_idx == q0 and {EQ_ALL(NPOS)} and (not shr_domains_changes or algorithms[q0] != ALG_AFFINE_EQ)")
+fl1 = dict(BASE.loops[1]); fl1["invariant"] = list(fl1["invariant"]) + FIX_OUTER
+fl2 = dict(BASE.loops[2]); fl2["invariant"] = list(fl2["invariant"]) + FIX_INNER
+fl3 = dict(BASE.loops[3]); fl3["invariant"] = list(fl3["invariant"]) + FIX_THIRD
+for _k in ("decreases", "step_hints", "hints", "step_ensures"):
+    fl1.pop(_k, None)
+fl1["step_hints"] = [f"axiom_fix_ran({RAN_OK}, {SS}, top, q0)"]
+fl2["step_hints"] = [f"axiom_fix_frame(it0({SS}), top, {SS}, top, shr_domain_idx, events)"]
+contract("nucs/solvers/bound_consistency_algorithm.py::bound_consistency_algorithm", variant="fix", types=ENGINE_T, props=["C08", "C01", "C02"],
+    requires=list(BASE.requires) + FIX_REQ,
+    calls=BASE.calls, ghost_calls=BASE.extra["ghost_calls"], ghost=BASE.ghost, defs=BASE.extra["defs"], call_ghosts=BASE.extra["call_ghosts"],
+    ghost_results={"pop_propagator": "q0"}, ghost_init={"dch": 0},
+    modifies=BASE.modifies, loops={1: fl1, 2: fl2, 3: fl3},
+    ensures=CA_FRAME + CA_FRAME_IFACE + [CA_SHRINK, CA_STATUS, CA_BOUND, CA_UNBOUND, ("C17.others", OTHER_STATS), ("C17.solver_stats", SOLVER_STATS_SAME_BC)] + FIX_ENS,
+    # a missed wake-up under partial masks also lets a non-solution through (C01, C02): the acceptance variant above only covers full masks
+    tags={"C08": ["C08", "C01", "C02"]}, arities=[], timeout_ms=200000)
